@@ -95,6 +95,13 @@ fn alphabet(n: usize, tier: Tier) -> Vec<Dev> {
             s.variants[i].ident = "r#try".into();
             true
         }));
+        // `disabled` written BEFORE the spellings in the same list: the keys after it still count (VARIANTS, get_serializations)
+        d.push(dev(format!("v{}: #[strum(disabled, serialize = \"longer-one\", serialize = \"zq\")] (reversed list)", i), &[&format!("dis{}", i), &format!("ser{}", i), &format!("layout{}", i)], move |s| {
+            s.variants[i].disabled = true;
+            s.variants[i].serialize = vec!["zq".into(), "longer-one".into()];
+            s.variants[i].layout = Layout::Reversed;
+            true
+        }));
         d.push(dev(format!("v{}.disabled", i), &[&format!("dis{}", i)], move |s| {
             s.variants[i].disabled = true;
             true
